@@ -44,8 +44,8 @@ Print Assumptions C17_chain_increasing.
    pool of undelivered visits carries an invariant that is stable under the monotone evolution of the structure
    (ranks never decrease; a non-root never becomes a root again and keeps its rank) - DisjointProto.v. *)
 From Ygm Require Import DisjointProto.
-Theorem C17_walk_protocol_safe : forall es s,
-  steps ([], unions es) s ->
+Theorem C17_walk_protocol_safe : forall l s,
+  steps ([], unionsb l) s ->
   Inv (fst s) /\ forall k v, nth_error (snd s) k = Some v -> exists t' sends, exec (fst s) v = Some (t', sends).
 Proof. exact walk_protocol_safe. Qed.
 Print Assumptions C17_walk_protocol_safe.
@@ -72,13 +72,13 @@ Theorem C17_every_item_has_one_root : forall t, Inv t ->
 Proof. intros t HI. split; [apply (root_total t HI)|intros x r1 r2 H1 H2; apply (root_det t x r1 H1 r2 H2)]. Qed.
 Print Assumptions C17_every_item_has_one_root.
 
-Theorem C17_quiescent_roots_are_components : forall es t,
-  steps ([], unions es) (t, []) -> forall a b, conn t a b <-> R es a b.
+Theorem C17_quiescent_roots_are_components : forall l t,
+  steps ([], unionsb l) (t, []) -> forall a b, conn t a b <-> R (map snd l) a b.
 Proof. exact quiescent_roots_are_components. Qed.
 Print Assumptions C17_quiescent_roots_are_components.
 
-Theorem C17_same_root_implies_connected_always : forall es s a b,
-  steps ([], unions es) s -> conn (fst s) a b -> R es a b.
+Theorem C17_same_root_implies_connected_always : forall l s a b,
+  steps ([], unionsb l) s -> conn (fst s) a b -> R (map snd l) a b.
 Proof. exact always_sound. Qed.
 Print Assumptions C17_same_root_implies_connected_always.
 
@@ -86,7 +86,7 @@ Print Assumptions C17_same_root_implies_connected_always.
    through same-root + pending walks *)
 Theorem C17_delivery_never_splits_a_set : forall t v t' sends, Inv t -> VI t v -> CI t v -> exec t v = Some (t', sends) ->
   Inv t' /\ (forall a b, conn t a b -> conn t' a b) /\ Forall (CI t') sends /\
-  (forall me c op oi r, v = Walk me c op oi r -> Q t' sends me op).
+  (forall cb me c op oi r, v = Walk cb me c op oi r -> Q t' sends me op).
 Proof. exact exec_conn. Qed.
 Print Assumptions C17_delivery_never_splits_a_set.
 
@@ -118,3 +118,16 @@ Proof.
       cbn in Hin. repeat (destruct Hin as [Hin|Hin]; [injection Hin as <- <-; lia|]). contradiction. }
     destruct (Inv30 _ _ Hc) as (A & _). specialize (A eq_refl). discriminate.
 Qed.
+
+(* THE TIE TO THE CODE.  [lexec me i v]: what a visit does to the entry i of the item it runs on and which visits it sends,
+   from that entry alone - what a handler of disjoint_set_impl.hpp can see.  Whenever the guarded model succeeds (always,
+   under the pool invariant: C17_walk_protocol_safe) it changes only that entry, as lexec says, and sends what lexec says.
+   Every visit recorded from the real container is replayed against lexec on every run (vlib/dstrace.py). *)
+From Ygm Require Import DisjointLocal.
+Theorem C17_model_step_is_the_local_step : forall t v t' sends, exec t v = Some (t', sends) ->
+  exists i, lookup (ensure t (target v)) (target v) = Some i /\
+    sends = snd (lexec (target v) i v) /\
+    lookup t' (target v) = Some (fst (lexec (target v) i v)) /\
+    forall y, y <> target v -> lookup t' y = lookup (ensure t (target v)) y.
+Proof. exact exec_lexec. Qed.
+Print Assumptions C17_model_step_is_the_local_step.
